@@ -7,7 +7,7 @@
    a theorem. *)
 From Coq Require Import List NArith ZArith Bool String Ascii PrimFloat FloatOps.
 From Coq Require Uint63.
-From T4V Require Import Base.Str Base.Scalar Base.Cases C12.Text C12.Model.
+From T4V Require Import Base.Str Base.Scalar Base.Cases C12.Text C12.Model C12.Cards.
 Import ListNotations.
 Open Scope string_scope.
 Open Scope list_scope.
@@ -149,10 +149,13 @@ Definition fillid_eqb (a b : fillid) : bool :=
   | _, _ => false
   end.
 
+(* s.strip() on blanks *)
+Definition trim (s : string) : string := srev (lstrip (srev (lstrip s))).
+
 Definition cell_eqb (c : cell (T:=float)) (o : ocell) : bool :=
   String.eqb (c_mat c) (o_mat o)
   && option_eqb String.eqb (c_rho c) (o_rho o)
-  && String.eqb (c_geom c) (o_geom o)
+  && String.eqb (trim (c_geom c)) (o_geom o)   (* get_ast ignores the blanks around the geometry part *)
   && option_eqb f_close9 (c_imp c) (o_imp o)
   && Z.eqb (c_u c) (o_u o)
   && fillid_eqb (c_fill c) (o_fill o)
@@ -163,7 +166,7 @@ Definition cell_eqb (c : cell (T:=float)) (o : ocell) : bool :=
 Definition err_eqb (a b : err) : bool :=
   match a, b with
   | EIndex, EIndex | EValue, EValue | EType, EType | EZeroDiv, EZeroDiv | EKey, EKey
-  | ECell, ECell | EMissingLattice, EMissingLattice | EAssert, EAssert | ETransf, ETransf | ELoop, ELoop => true
+  | ECell, ECell | EMissingLattice, EMissingLattice | EAssert, EAssert | ETransf, ETransf | EAttr, EAttr | ELoop, ELoop => true
   | _, _ => false
   end.
 
@@ -184,14 +187,20 @@ Record pcase := mkCase {
   pc_imps : list (string * list string);
   pc_cards : list card;
   pc_lats : list (Z * list (Z * Z));
+  pc_ctexts : list string;       (* Card.content() of the cell cards *)
+  pc_dtexts : list string;       (* Card.content() of the data cards *)
   pc_out : res (list (Z * ocell) * list Z)
 }.
+
+(* the same from the text of the cards *)
+Definition run_case_text (c : pcase) :=
+  parse_deck_text FS (prims_of (pc_tables c)) (pc_ctexts c) (pc_dtexts c) (pc_lats c).
 
 Definition run_case (c : pcase) :=
   parse_cells FS (prims_of (pc_tables c)) (pc_imps c) (pc_cards c) (pc_lats c).
 
-Definition check_parse (c : pcase) : bool :=
-  match run_case c, pc_out c with
+Definition out_eqb (r : res (list (Z * cell (T:=float)) * list Z)) (o : res (list (Z * ocell) * list Z)) : bool :=
+  match r, o with
   | Ok (cells, skipped), Ok (ocells, oskipped) =>
       list_eqb2 (fun a b => Z.eqb (fst a) (fst b) && cell_eqb (snd a) (snd b)) cells ocells
       && list_eqb Z.eqb skipped oskipped
@@ -199,15 +208,20 @@ Definition check_parse (c : pcase) : bool :=
   | _, _ => false
   end.
 
+(* both routes: from the parts the generator wrote, and from the card texts *)
+Definition check_parse (c : pcase) : bool :=
+  out_eqb (run_case c) (pc_out c) && out_eqb (run_case_text c) (pc_out c).
+
 (* what a whole conversion must show for a deck without FILL: the VOLU ids of
    the file (in the order of the cell dictionary) and the list of the NOTE on
    stdout (None: no NOTE) *)
-Definition check_conv (c : pcase * list Z * option (list Z)) : bool :=
-  let '(pc, volu, nt) := c in
+Definition check_conv (c : pcase * list Z * option (list Z) * list string) : bool :=
+  let '(pc, volu, nt, lines) := c in
   match run_case pc with
   | Ok (cells, skipped) =>
       list_eqb Z.eqb (written_ids FS cells skipped) volu
       && option_eqb (list_eqb Z.eqb) (note skipped) nt
+      && list_eqb String.eqb (note_lines skipped) lines   (* the bytes of the NOTE *)
   | Err _ => false
   end.
 
